@@ -789,7 +789,10 @@ func (e *Evaluator) createSpeculativeObjects(specObj *Cell) (*Cell, error) {
 	}
 
 	var objToSet *Value
-	if parent.Tag == ValueNil {
+	// a missing member whose key is also the name of a method is looked up as
+	// that method (bound to where it was looked up): as an intermediate of an
+	// assignment path it is created like any other missing member
+	if parent.Tag == ValueNil || (parent.Tag == ValueNativeFn && parent.ParentObj != nil) {
 		newParent, err := e.createSpeculativeObjects(NewCell(*parent))
 		if err != nil {
 			return nil, err
